@@ -210,6 +210,17 @@ def run(ctx):
             nontriv.add(c)
         if wm is not None and wm[i] != a:
             mism.append(("wrapper", c, a, wm[i]))
+    # ---- 1b. (thorough) sensitivity of the static obligations: textual mutants of the source
+    if ctx.thorough() and r["ok"]:
+        import importlib.util
+        sp = importlib.util.spec_from_file_location("c15_mut", os.path.join(ctx.pdir, "mutation_probe.py"))
+        mp = importlib.util.module_from_spec(sp); sp.loader.exec_module(mp)
+        pr = mp.probe(REPO)
+        cov["static_mutation_probe"] = {n: v for n, v in pr}
+        cov["static_mutants_detected"] = "%d of %d (plus %d harmless edit(s) accepted)" % (
+            sum(1 for n, v in pr if not n.startswith("harmless") and (v.startswith("BROKEN") or v.startswith("extractor refuses"))),
+            sum(1 for n, v in pr if not n.startswith("harmless")),
+            sum(1 for n, v in pr if n.startswith("harmless") and v.startswith("all obligations")))
     # ---- 2. entry points on real repositories
     seqs = []
     nseeds = 3 if ctx.thorough() else 1
